@@ -72,6 +72,8 @@ func (t *TestTun) Send(packet []byte) {
 	}
 	buf := acquireTunBuf(len(packet))
 	copy(buf, packet)
+	// Close may run between the closed check and the send; a closed device just swallows the packet.
+	defer func() { _ = recover() }()
 	t.rxPackets <- buf
 }
 
@@ -119,6 +121,13 @@ func (t *TestTun) Write(b []byte) (n int, err error) {
 
 	packet := acquireTunBuf(len(b))
 	copy(packet, b)
+	// Close may run between the closed check and the send (a reader still finishing a packet while the
+	// node is stopped); behave like a closed file descriptor instead of panicking.
+	defer func() {
+		if recover() != nil {
+			n, err = 0, io.ErrClosedPipe
+		}
+	}()
 	t.TxPackets <- packet
 	return len(b), nil
 }
